@@ -423,6 +423,11 @@ def check(ctx):
     cache_keys(ctx)
     pickle_caches(ctx)
     shortcuts(ctx)
+    # objects written to the selection / matrix caches: pickling hooks only drop what is rebuilt, and state derived in
+    # a property setter has no second writer
+    from ..rules import shared as _sh12
+    _sh12.check_setter_owned_fields(ctx)
+    _sh12.check_getstate_drops(ctx)
     from ..rules import symmetry
     symmetry.check_side_symmetry(ctx)
     ctx.floor('A9', 15, 'raises on the instantiation slice')
